@@ -33,8 +33,17 @@ func kSel(s *Selector) *metav1.LabelSelector {
 }
 func podSpec(wl *Workload) corev1.PodSpec {
 	c := corev1.Container{Name: "c", Image: "img"}
-	for _, p := range wl.Ports {
-		c.Ports = append(c.Ports, corev1.ContainerPort{Name: p.Name, ContainerPort: int32(p.Number), Protocol: corev1.Protocol(p.Proto)})
+	c2 := corev1.Container{Name: "sidecar", Image: "img2"}
+	for i, p := range wl.Ports {
+		cp := corev1.ContainerPort{Name: p.Name, ContainerPort: int32(p.Number), Protocol: corev1.Protocol(p.Proto)}
+		if wl.SplitContainers && i%2 == 1 {
+			c2.Ports = append(c2.Ports, cp)
+		} else {
+			c.Ports = append(c.Ports, cp)
+		}
+	}
+	if wl.SplitContainers {
+		return corev1.PodSpec{Containers: []corev1.Container{c, c2}}
 	}
 	return corev1.PodSpec{Containers: []corev1.Container{c}}
 }
@@ -62,6 +71,23 @@ func (d Doc) JSON() []byte {
 	return b
 }
 
+func nsObjLabels(n *Ns) map[string]string {
+	if !n.ExplicitNameLabel {
+		return n.Labels
+	}
+	m := copyMapS(n.Labels)
+	m[nsNameKey] = n.Name
+	return m
+}
+
+func copyMapS(m map[string]string) map[string]string {
+	r := map[string]string{}
+	for k, v := range m {
+		r[k] = v
+	}
+	return r
+}
+
 func workloadDocs(w *World, wl *Workload) []Doc {
 	var docs []Doc
 	ns := wl.Ns
@@ -69,6 +95,9 @@ func workloadDocs(w *World, wl *Workload) []Doc {
 		ns = ""
 	}
 	om := metav1.ObjectMeta{Name: wl.Name, Namespace: ns}
+	if wl.Kind != "Pod" && !isOwned(wl.Kind) && len(wl.ObjLabels) > 0 {
+		om.Labels = wl.ObjLabels
+	}
 	tmpl := corev1.PodTemplateSpec{ObjectMeta: metav1.ObjectMeta{Labels: wl.Labels}, Spec: podSpec(wl)}
 	var reps *int32
 	if wl.Replicas >= 0 {
@@ -125,7 +154,7 @@ func (w *World) Docs() []Doc {
 	var docs []Doc
 	for _, n := range w.Namespaces {
 		if n.HasObject {
-			docs = append(docs, Doc{Kind: "Namespace", Key: "Namespace//" + n.Name, Obj: &corev1.Namespace{TypeMeta: metav1.TypeMeta{APIVersion: "v1", Kind: "Namespace"}, ObjectMeta: metav1.ObjectMeta{Name: n.Name, Labels: n.Labels}}})
+			docs = append(docs, Doc{Kind: "Namespace", Key: "Namespace//" + n.Name, Obj: &corev1.Namespace{TypeMeta: metav1.TypeMeta{APIVersion: "v1", Kind: "Namespace"}, ObjectMeta: metav1.ObjectMeta{Name: n.Name, Labels: nsObjLabels(&n)}}})
 		}
 	}
 	for i := range w.Workloads {
@@ -340,8 +369,10 @@ type Layout struct {
 	Files []LFile
 }
 type LFile struct {
-	Path string // relative, may contain sub-directories; extension .yaml .yml or .json (json: exactly one doc)
+	Path string // relative, may contain sub-directories; extension .yaml .yml or .json (json: exactly one doc, or a List)
 	Docs []int
+	// AsList: the documents are wrapped in one `v1 List` object (as `kubectl get -o yaml` writes them)
+	AsList bool `json:",omitempty"`
 }
 
 var scratchRoot = func() string {
@@ -382,7 +413,26 @@ func WriteDocs(dir string, docs []Doc, l *Layout) {
 			continue
 		}
 		var content []byte
-		if strings.HasSuffix(f.Path, ".json") && len(f.Docs) == 1 {
+		if f.AsList {
+			items := []interface{}{}
+			for _, di := range f.Docs {
+				var m map[string]interface{}
+				if err := json.Unmarshal(docs[di].JSON(), &m); err != nil {
+					panic(err)
+				}
+				items = append(items, m)
+			}
+			list := map[string]interface{}{"apiVersion": "v1", "kind": "List", "items": items}
+			var err error
+			if strings.HasSuffix(f.Path, ".json") {
+				content, err = json.Marshal(list)
+			} else {
+				content, err = yaml.Marshal(list)
+			}
+			if err != nil {
+				panic(err)
+			}
+		} else if strings.HasSuffix(f.Path, ".json") && len(f.Docs) == 1 {
 			content = docs[f.Docs[0]].JSON()
 		} else {
 			var parts []string
